@@ -327,7 +327,24 @@ func genRoots(rng *rand.Rand, g *model.Graph, names map[int][]byte, kinds string
 		for i := 0; i < n; i++ {
 			o := pick()
 			expr := fmt.Sprintf("{hex:%s%d}", o.K, o.I)
-			switch rng.Intn(5) {
+			switch rng.Intn(7) {
+			case 5:
+				// a path with a trailing slash names the same tree ("rev:dir/")
+				if o.K == "t" {
+					if ci, p, ok := pathTo(g, names, o); ok && p != "" && !strings.ContainsAny(p, "{}\n") {
+						expr = fmt.Sprintf("{hex:c%d}:%s/", ci, p)
+					}
+				}
+			case 6:
+				// ":/<regexp>": the youngest commit reachable from any reference whose message matches (messages
+				// are "c<N>"); only for commits some reference points at
+				for _, r := range refs {
+					if r.O.K == "c" && (o.K != "c" || r.O == o) {
+						o = r.O
+						expr = fmt.Sprintf(":/^c%d[^0-9]", o.I)
+						break
+					}
+				}
 			case 0:
 				if o.K == "t" || o.K == "b" {
 					if ci, p, ok := pathTo(g, names, o); ok {
@@ -580,9 +597,10 @@ func rootKindCases(prefix string) []cases.ScanCase {
 	build := func() (model.Graph, map[int][]byte) {
 		var g model.Graph
 		names := map[int][]byte{1: []byte("in-tree.txt"), 2: []byte("dir"), 3: []byte("other")}
-		g.Blobs = []int{11, 222, 33, 4}                                                                  // b1 in trees; b2 loose (refs only); b3 only in the loose tree; b4 only under a tag
-		g.Trees = [][]model.Entry{{{K: "file", To: 1, N: 1, NL: 11}}, {{K: "file", To: 3, N: 3, NL: 5}}} // t1 root of c1; t2 loose
-		g.Commits = []model.Commit{{Tree: 1, Parents: []int{}}}
+		g.Blobs = []int{11, 222, 33, 4}                                                                 // b1 in trees; b2 loose (refs only); b3 only in the loose tree; b4 only under a tag
+		g.Trees = [][]model.Entry{{{K: "file", To: 1, N: 3, NL: 5}}, {{K: "file", To: 3, N: 3, NL: 5}}, // t1 = dir of t3; t2 loose
+			{{K: "tree", To: 1, N: 2, NL: 3}, {K: "file", To: 1, N: 1, NL: 11}}} // t3 root of c1: dir/, in-tree.txt
+		g.Commits = []model.Commit{{Tree: 3, Parents: []int{}}}
 		g.Tags = []model.Tag{{TK: "b", To: 4, Size: 140}, {TK: "t", To: 2, Size: 141}, {TK: "c", To: 1, Size: 142}}
 		g.Normalize()
 		return g, names
@@ -595,7 +613,7 @@ func rootKindCases(prefix string) []cases.ScanCase {
 		"loose-blob":        {ref("b", 2, "refs/tags/pubkey")},
 		"intree-blob":       {ref("b", 1, "refs/tags/file")},
 		"loose-tree":        {ref("t", 2, "refs/misc/tree")},
-		"root-tree":         {ref("t", 1, "refs/misc/roottree")},
+		"root-tree":         {ref("t", 3, "refs/misc/roottree")},
 		"tag-of-blob":       {ref("g", 1, "refs/tags/tb")},
 		"tag-of-tree":       {ref("g", 2, "refs/tags/tt")},
 		"tag-of-commit":     {ref("g", 3, "refs/tags/v1")},
@@ -652,6 +670,9 @@ func rootKindCases(prefix string) []cases.ScanCase {
 	un := func(r cases.RootSpec) cases.RootSpec { r.Walk = false; return r }
 	mk("argument-names-a-reference", []cases.RootSpec{un(main), un(ref("g", 3, "refs/tags/v1")), named("c", 1, "refs/heads/main"), named("g", 3, "v1"), named("c", 1, "main")},
 		[]string{"refs/heads/main", "v1", "main"}, "full")
+	// a path with a trailing slash, and a commit found by its message (":/text" cannot be extended by ":path")
+	mk("root-with-trailing-slash", []cases.RootSpec{un(main), named("t", 1, "refs/heads/main:dir/")}, []string{"refs/heads/main:dir/"}, "full")
+	mk("root-found-by-message", []cases.RootSpec{un(main), named("c", 1, ":/^c1[^0-9]")}, []string{":/^c1[^0-9]"}, "full")
 	mk("ambiguous-short-name", []cases.RootSpec{un(main), un(ref("c", 1, "refs/heads/rel")), un(ref("t", 2, "refs/tags/rel")), named("t", 2, "rel")},
 		[]string{"rel"}, "full")
 	mk("ambiguous-short-name-with-branches", []cases.RootSpec{main, ref("c", 1, "refs/heads/rel"), un(ref("g", 2, "refs/tags/rel")), named("g", 2, "rel")},
